@@ -158,6 +158,8 @@ def run_case(case):
     viol = []
     info = {"transfers": 0, "bytes": 0, "observer_calls": 0}
     world = scenario.setup_world(sc, max_steps=3_000_000)
+    if scratch:
+        world.digest_masks = [scratch]
     try:
         return _run_transfers(case, world, sc, net, b, ckw, viol, info, scratch)
     finally:
